@@ -291,6 +291,35 @@ def bounded(rep, tier, seed):
              ('glob("web-01", "web-*")', True), ('glob("db", "web-*")', False), ('[1,2].intersect([2,3])', True),
              ('arn_split("arn:aws:s3:us-east-1:123:bucket/key", "account-id")', "123"),
              ('arn_split("arn:aws:sns:us-east-1:123:topic:name", "resource-type")', "topic")]
+    # set helpers against Python sets over small lists with duplicates; glob against fnmatch over a pattern family with bracket classes
+    import fnmatch
+    pool = ["a", "b", "c"]
+    small = [list(t) for k in range(0, 4) for t in itertools.product(pool, repeat=k)]
+    for left in small:
+        for right in small[:13]:
+            n += 1
+            a, b = ct.ListType([ct.StringType(x) for x in left]), ct.ListType([ct.StringType(x) for x in right])
+            try:
+                ok = bool(L.intersect(a, b)) == bool(set(left) & set(right)) and bool(L.difference(a, b)) == bool(set(left) - set(right)) and \
+                    int(L.unique_size(a)) == len(set(left))
+                got = (bool(L.intersect(a, b)), bool(L.difference(a, b)), int(L.unique_size(a)))
+            except Exception as ex:
+                ok, got = False, repr(ex)[:80]
+            if not ok:
+                fails.append({"sets": [left, right], "observed (intersect, difference, unique_size)": got,
+                              "expected": [bool(set(left) & set(right)), bool(set(left) - set(right)), len(set(left))]})
+    pats = ["ac", "[ab]c", "[!a]c", "a[0-9]", "a?", "a*", "*c", "[ab]*", "i-[0-9]a", "[ab]c*", "", "a", "[a", "a]"]
+    texts = ["ac", "bc", "cc", "a0", "a", "", "abc", "i-0a", "[ab]c", "a?", "[a", "a]"]
+    for pt in pats:
+        for tx in texts:
+            n += 1
+            try:
+                got = bool(L.glob(ct.StringType(tx), ct.StringType(pt)))
+                ok = got == fnmatch.fnmatchcase(tx, pt)
+            except Exception as ex:
+                got, ok = repr(ex)[:80], False
+            if not ok:
+                fails.append({"glob": [tx, pt], "observed": got, "expected": fnmatch.fnmatchcase(tx, pt)})
     for text, want in cases:
         n += 1
         try:
